@@ -2,6 +2,7 @@ package rules
 
 import (
 	"fmt"
+	"go/constant"
 	"go/token"
 	"go/types"
 	"strings"
@@ -619,49 +620,8 @@ func c05(c *eng.Ctx) {
 	c05DelegateStability(c, iface)
 
 	// ---- R3b: a type change of a schema creates a new cache (the old wrapper is never re-typed)
-	c.Rule("R3b", "a schema whose type changed gets a new limiter cache: in syncLocalFlowControls every path from a loaded cache whose type differs from the new schema's type to LocalFlowControl().Sync passes NewFlowControlCache", 1)
-	if sl := c.MustMethod(pkgFCRoot, "upstreamLimiter", "syncLocalFlowControls"); sl != nil {
-		guess := pkgFC + ".GuessFlowControlSchemaType"
-		isNew := func(ins ssa.Instruction) bool { return eng.IsCall(ins, pkgFCRemote+".NewFlowControlCache") }
-		isSync := func(ins ssa.Instruction) bool {
-			return eng.IsCall(ins, "("+pkgFCRemote+".LocalFlowControlWrapper).Sync")
-		}
-		found := false
-		for _, b := range sl.Blocks {
-			iff, ok := b.Instrs[len(b.Instrs)-1].(*ssa.If)
-			if !ok {
-				continue
-			}
-			r := eng.RelOf(iff.Cond, true)
-			if r.Op.String() != "!=" && r.Op.String() != "==" {
-				continue
-			}
-			sl2 := c.Slicer().WithArgs()
-			isTypeOfLoaded := func(v ssa.Value) bool {
-				return sl2.DerivesFrom(v, func(x ssa.Value) bool {
-					cc, _ := eng.CallResultOf(x)
-					return cc != nil && eng.IsCall(cc, "(*"+pkgFCRemote+".FlowControlMap).Load")
-				})
-			}
-			isTypeOfNew := func(v ssa.Value) bool {
-				cc, _ := eng.CallResultOf(v)
-				return cc != nil && eng.IsCall(cc, guess) && !isTypeOfLoaded(v)
-			}
-			if !((isTypeOfLoaded(r.X) && isTypeOfNew(r.Y)) || (isTypeOfLoaded(r.Y) && isTypeOfNew(r.X))) {
-				continue
-			}
-			found = true
-			differ := b.Succs[0]
-			if r.Op.String() == "==" {
-				differ = b.Succs[1]
-			}
-			x := eng.ReachFromBlock(differ, eng.PathQuery{Target: isSync, Avoid: isNew})
-			c.Check("R3b", sl, "type-change ⇒ new cache", iff.Pos(), x == nil, "on the edge where the loaded cache's type differs from the new schema's type, Sync must be reached only through NewFlowControlCache")
-		}
-		if !found {
-			c.Fail("R3b", sl, "type-change ⇒ new cache", sl.Pos(), "no comparison of the loaded cache's type with the new schema's type: a type change re-uses the old wrapper (its limiter is either replaced under in-flight holders or resized as the wrong kind)")
-		}
-	}
+	c.Rule("R3b", "a schema whose type changed gets a new limiter cache, and only such a schema does: in syncLocalFlowControls, when a cache is registered under the schema's name, LocalFlowControl().Sync is called on a cache created by NewFlowControlCache if the registered cache's type differs from the new schema's type, and on the registered cache itself (no new cache is created) if the types are equal", 2)
+	c05TypeChangeNewCache(c, "R3b")
 
 	// ---- R4: ownership of constructors
 	type own struct {
@@ -674,6 +634,12 @@ func c05(c *eng.Ctx) {
 		{pkgFCRoot + ".NewUpstreamLimiter", map[string]bool{"pkg/clusters.NewEmptyClusterInfo": true}, "one limiter per cluster"},
 		{pkgFC + ".NewFlowControl", map[string]bool{"(*pkg/flowcontrols/remote.flowControlCache).newMeterFlowControl": true, "pkg/flowcontrols/flowcontrol.init": true}, "limiters are built per cache; the package-level default is the only shared one"},
 	}
+	// The owner of a construction site is primarily the function named above (or a helper that
+	// runs only as part of it). A refactoring may rename that function, turn a method into a
+	// function taking the fields it needs, or merge it into its caller; the site is then judged
+	// by the role of the code it sits in (c05OwnerRole): it must still run on behalf of exactly
+	// one owning object and must not publish the new object in a package variable.
+	role := c05OwnerRoles(c)
 	for _, o := range owners {
 		n := 0
 		var allowedFns []*ssa.Function
@@ -695,6 +661,12 @@ func c05(c *eng.Ctx) {
 						}
 					}
 				}
+				if !ok {
+					ok = role[o.callee] != nil && role[o.callee](ci)
+				} else if !(fn.Name() == "init" && fn.Parent() == nil) && !c05NotPublished(c, ci) {
+					// an owner by name must not publish the new object in a package variable either
+					ok = false
+				}
 				c.Check("R4", at, "call "+shortName(o.callee), ci.Pos(), ok, o.why+"; unexpected construction site")
 			}
 		}
@@ -702,34 +674,48 @@ func c05(c *eng.Ctx) {
 			c.Fail("R4", nil, "call "+shortName(o.callee), 0, "no construction site found")
 		}
 	}
-	// cache stored under the schema's own name
-	if sl := c.MustMethod(pkgFCRoot, "upstreamLimiter", "syncLocalFlowControls"); sl != nil {
-		for _, ci := range eng.CallsTo(sl, pkgFCRemote+".NewFlowControlCache") {
-			// find Store(name, fc) with fc deriving from this call and name == arg1 of the constructor
-			okStore := false
-			for _, st := range eng.CallsTo(sl, "(*"+pkgFCRemote+".FlowControlMap).Store") {
-				a := eng.Args(st)
-				if len(a) == 2 && c.Slicer().DerivesFrom(a[1], func(v ssa.Value) bool { return v == eng.ResultValue(ci) }) {
-					ca := eng.Args(ci)
-					if len(ca) >= 2 && sameLoad(a[0], ca[1]) {
-						okStore = true
+	// cache stored under the schema's own name: wherever a cache is created (the limiter's sync
+	// or a helper its body was spread over), the function that creates it stores it in the
+	// limiter table under the very name it was created for
+	{
+		sl := limiterSyncAnchor(c)
+		for _, fn := range c.W.AllRepoFuncs() {
+			for _, ci := range eng.CallsTo(fn, pkgFCRemote+".NewFlowControlCache") {
+				// find Store(name, fc) with fc deriving from this call and name == arg1 of the constructor
+				okStore := false
+				for _, g := range c.W.Region(fn) {
+					for _, st := range eng.CallsTo(g, "(*"+pkgFCRemote+".FlowControlMap).Store") {
+						a := eng.Args(st)
+						if len(a) == 2 && c.Slicer().WithUp().DerivesFrom(a[1], func(v ssa.Value) bool { return v == eng.ResultValue(ci) }) {
+							ca := eng.Args(ci)
+							if len(ca) >= 2 && (sameLoad(a[0], ca[1]) || sameLoad(c.W.ResolveUp(a[0]), ca[1])) {
+								okStore = true
+							}
+						}
 					}
 				}
+				at := fn
+				if sl != nil && fn != sl && c.W.OwnedBy(fn, sl) {
+					at = sl
+				}
+				c.Check("R4", at, "cache stored under its schema name", ci.Pos(), okStore, "the new cache must be stored under the same name it was created for")
 			}
-			c.Check("R4", sl, "cache stored under its schema name", ci.Pos(), okStore, "the new cache must be stored under the same name it was created for")
-			// receiver map is the limiter's own field
 		}
 	}
 	checkSchemaTableKeys(c, "R4")
-	// the shared default limiter is exempt
+	// the shared default limiter is exempt: the limiter built by the package initialiser (or by a
+	// helper that runs only as part of it) is built from a literal with Exempt set and no limit member
 	if ini := c.W.Func(pkgFC, "init"); ini != nil {
-		for _, ci := range eng.CallsTo(ini, pkgFC+".NewFlowControl") {
-			a := eng.Args(ci)
-			ok := false
-			if len(a) == 1 {
-				// the literal passed has Exempt set and no limit member
-				exempt, limited := false, false
-				for _, fn := range []*ssa.Function{ini} {
+		for _, fn := range c.W.AllRepoFuncs() {
+			if fn != ini && !c.W.OwnedBy(fn, ini) {
+				continue
+			}
+			for _, ci := range eng.CallsTo(fn, pkgFC+".NewFlowControl") {
+				a := eng.Args(ci)
+				ok := false
+				if len(a) == 1 {
+					// the literal passed has Exempt set and no limit member
+					exempt, limited := false, false
 					eng.Instrs(fn, func(ins ssa.Instruction) {
 						st, isSt := ins.(*ssa.Store)
 						if !isSt {
@@ -744,12 +730,279 @@ func c05(c *eng.Ctx) {
 							}
 						}
 					})
+					ok = exempt && !limited
 				}
-				ok = exempt && !limited
+				c.Check("R4", ini, "shared default limiter is exempt", ci.Pos(), ok, "the only limiter shared by all clusters must be unlimited, otherwise one cluster's load rejects another's requests")
 			}
-			c.Check("R4", ini, "shared default limiter is exempt", ci.Pos(), ok, "the only limiter shared by all clusters must be unlimited, otherwise one cluster's load rejects another's requests")
 		}
 	}
+}
+
+// c05TypeChangeNewCache (C05.R3b; may be registered under another property with its own rule
+// id, declared by the caller with c.Rule): a schema whose type changed gets a new limiter cache,
+// and only such a schema does. Two obligations: "type-change ⇒ new cache" and "same type ⇒
+// registered cache kept".
+func c05TypeChangeNewCache(c *eng.Ctx, rule string) {
+	if sl := limiterSyncAnchor(c); sl != nil {
+		guess := pkgFC + ".GuessFlowControlSchemaType"
+		// Decided by forcing (path enumeration over syncLocalFlowControls and the same-package
+		// helpers its body may have been spread over): a cache IS registered under the schema's
+		// name (Load answers found); the type of the registered cache's configuration and the type
+		// of the new schema are pinned — to two different types, then to the same type. The two
+		// caches are told apart by tags carried by the abstract values, so it does not matter where
+		// the comparison, the creation and the Sync call sit, how the condition is written, or
+		// whether the cache reaches Sync through a variable, a phi or a helper result.
+		sl2 := c.Slicer().WithArgs().WithUp()
+		fromLoaded := func(v ssa.Value) bool {
+			return sl2.DerivesFrom(v, func(x ssa.Value) bool {
+				cc, _ := eng.CallResultOf(x)
+				return cc != nil && eng.IsCall(cc, "(*"+pkgFCRemote+".FlowControlMap).Load")
+			})
+		}
+		tagLoaded, tagNew := constant.MakeString("loaded cache"), constant.MakeString("new cache")
+		isTag := func(av eng.AV, tag constant.Value) bool {
+			return av.K == eng.NonNilV && av.C != nil && av.C.Kind() == constant.String && constant.Compare(av.C, token.EQL, tag)
+		}
+		type outcome struct {
+			onNew, onLoaded, onUnknown, created, guessLoaded, guessNew int
+			at                                                         token.Pos
+			err                                                        error
+		}
+		forceT := func(loadedType, newType string) outcome {
+			sameType := loadedType == newType
+			var o outcome
+			in := &eng.Interp{W: c.W, Depth: eng.LiftDepth, FollowCall: func(callee *ssa.Function) bool { return callee.Pkg == sl.Pkg }}
+			in.PinCall = func(cc *ssa.Call, idx int, st *eng.State) (eng.AV, bool) {
+				switch {
+				case eng.IsCall(cc, "(*"+pkgFCRemote+".FlowControlMap).Load"):
+					switch idx {
+					case 0:
+						return eng.AV{K: eng.NonNilV, C: tagLoaded}, true
+					case 1:
+						return eng.AVBool(true), true
+					}
+				case eng.IsCall(cc, pkgFCRemote+".NewFlowControlCache"):
+					if idx < 0 {
+						o.created++
+						if sameType {
+							o.at = cc.Pos()
+						}
+					}
+					return eng.AV{K: eng.NonNilV, C: tagNew}, true
+				case eng.IsCall(cc, guess) && len(eng.Args(cc)) == 1:
+					if fromLoaded(eng.Args(cc)[0]) {
+						o.guessLoaded++
+						return eng.AV{K: eng.ConstV, C: constant.MakeString(loadedType)}, true
+					}
+					o.guessNew++
+					return eng.AV{K: eng.ConstV, C: constant.MakeString(newType)}, true
+				case eng.IsCall(cc, "("+tFCCache+").LocalFlowControl"):
+					// the wrapper carries the tag of its cache
+					return eng.AV{K: eng.NonNilV, C: in.Eval(eng.Receiver(cc), st).C}, true
+				case idx < 0 && eng.IsCall(cc, "("+pkgFCRemote+".LocalFlowControlWrapper).Sync"):
+					recv := in.Eval(eng.Receiver(cc), st)
+					switch {
+					case isTag(recv, tagNew):
+						o.onNew++
+						if sameType {
+							o.at = cc.Pos()
+						}
+					case isTag(recv, tagLoaded):
+						o.onLoaded++
+						if !sameType {
+							o.at = cc.Pos()
+						}
+					default:
+						o.onUnknown++
+						o.at = cc.Pos()
+					}
+				}
+				return eng.AV{}, false
+			}
+			_, o.err = in.Run(sl, nil)
+			if !o.at.IsValid() {
+				o.at = sl.Pos()
+			}
+			return o
+		}
+		// every ordered pair of distinct schema types is forced (a rule that keeps the cache unless a
+		// max-in-flight limiter is involved passes (MaxRequestsInflight, TokenBucket) and fails
+		// (Exempt, TokenBucket)); the first failing pair decides the obligation
+		kinds := []string{"MaxRequestsInflight", "TokenBucket", "Exempt"}
+		force := func(same bool) outcome {
+			if same {
+				return forceT(kinds[0], kinds[0])
+			}
+			var first outcome
+			for i, a := range kinds {
+				for j, b := range kinds {
+					if i == j {
+						continue
+					}
+					o := forceT(a, b)
+					if i == 0 && j == 1 {
+						first = o
+					}
+					if o.err != nil || o.guessLoaded == 0 || o.guessNew == 0 || o.onUnknown > 0 || !(o.onLoaded == 0 && o.onNew > 0) {
+						return o
+					}
+				}
+			}
+			return first
+		}
+		for _, same := range []bool{false, true} {
+			construct := "type-change ⇒ new cache"
+			if same {
+				construct = "same type ⇒ registered cache kept"
+			}
+			o := force(same)
+			switch {
+			case o.err != nil:
+				c.Undecided(rule, sl, construct, sl.Pos(), "path enumeration of syncLocalFlowControls failed: "+o.err.Error())
+			case o.guessLoaded == 0 || o.guessNew == 0:
+				c.Fail(rule, sl, construct, sl.Pos(), "no comparison of the loaded cache's type with the new schema's type: a type change re-uses the old wrapper (its limiter is either replaced under in-flight holders or resized as the wrong kind)")
+			case o.onUnknown > 0:
+				c.Undecided(rule, sl, construct, o.at, "the cache whose local limiter is synced could not be traced to FlowControlMap.Load or NewFlowControlCache")
+			case !same:
+				c.Check(rule, sl, construct, o.at, o.onLoaded == 0 && o.onNew > 0, "when the registered cache's type differs from the new schema's type, Sync must be called on a cache created by NewFlowControlCache, never on the loaded one (its limiter is either replaced under in-flight holders or resized as the wrong kind)")
+			default:
+				c.Check(rule, sl, construct, o.at, o.onNew == 0 && o.created == 0 && o.onLoaded > 0, "when the registered cache has the type of the new schema it must be kept and resized in place: a new cache starts with an empty in-flight count while the requests admitted by the old one are still unfinished, so more than the limit are in flight (e.g. re-creation when only the strategy or the size changed)")
+			}
+		}
+	}
+}
+
+// c05NotPublished reports whether the object created by call ci is not stored into a package
+// variable (directly, into a field of one, or as an entry of a package-level map) by the function
+// that creates it: such an object would be shared by all owners.
+func c05NotPublished(c *eng.Ctx, ci ssa.CallInstruction) bool {
+	res := eng.ResultValue(ci)
+	if res == nil {
+		return false
+	}
+	ok := true
+	sl := c.Slicer()
+	for _, f := range eng.WithClosures(c06Outermost(ci.Parent())) {
+		eng.Instrs(f, func(ins ssa.Instruction) {
+			if mu, isMU := ins.(*ssa.MapUpdate); isMU {
+				// an entry of a package-level map
+				inGlobal := sl.DerivesFrom(mu.Map, func(v ssa.Value) bool { _, isG := v.(*ssa.Global); return isG })
+				if inGlobal && sl.DerivesFrom(mu.Value, func(v ssa.Value) bool { return v == res }) {
+					ok = false
+				}
+				return
+			}
+			st, isSt := ins.(*ssa.Store)
+			if !isSt {
+				return
+			}
+			root, _ := eng.AccessPath(st.Addr)
+			if _, isG := root.(*ssa.Global); !isG {
+				if _, isG2 := st.Addr.(*ssa.Global); !isG2 {
+					return
+				}
+			}
+			if sl.DerivesFrom(st.Val, func(v ssa.Value) bool { return v == res }) {
+				ok = false
+			}
+		})
+	}
+	return ok
+}
+
+// c05OwnerRoles gives, per constructor, the role-based test of a construction site that is not
+// (in) the function known by name. The roles are stated over types and data flow, never over
+// function names:
+//
+//   - NewFlowControl: the site runs on behalf of one limiter cache — it sits in a method of a
+//     type implementing FlowControlCache, or of a type holding a pointer to such a cache (the
+//     wrappers), or in a helper / function literal every call site of which does; and the new
+//     limiter is not stored in a package variable.
+//   - NewFlowControlCache: the site sits in a method of a type implementing UpstreamLimiter (or
+//     a helper owned by such methods), i.e. in the cluster's own limiter.
+//   - NewUpstreamLimiter: the new limiter becomes the flowcontrol field of a ClusterInfo that the
+//     same function allocates (a constructor of ClusterInfo).
+func c05OwnerRoles(c *eng.Ctx) map[string]func(ci ssa.CallInstruction) bool {
+	methodsOf := func(isOwner func(t types.Type) bool) []*ssa.Function {
+		var out []*ssa.Function
+		for _, fn := range c.W.AllRepoFuncs() {
+			if fn.Parent() != nil || fn.Signature.Recv() == nil {
+				continue
+			}
+			t := fn.Signature.Recv().Type()
+			if p, ok := t.Underlying().(*types.Pointer); ok {
+				t = p.Elem()
+			}
+			if isOwner(t) {
+				out = append(out, fn)
+			}
+		}
+		return out
+	}
+	ownedByMethods := func(fn *ssa.Function, roots []*ssa.Function) bool {
+		return len(roots) > 0 && c.W.OwnedBy(fn, roots...)
+	}
+	noGlobalStore := func(ci ssa.CallInstruction) bool { return c05NotPublished(c, ci) }
+	roles := map[string]func(ci ssa.CallInstruction) bool{}
+
+	cacheI := c.W.Interface(pkgFCRemote, "FlowControlCache")
+	isCache := func(t types.Type) bool {
+		_, isNamed := t.(*types.Named)
+		return isNamed && cacheI != nil && implementsIface(t, cacheI)
+	}
+	holdsCache := func(t types.Type) bool {
+		if isCache(t) {
+			return true
+		}
+		st, ok := t.Underlying().(*types.Struct)
+		if !ok {
+			return false
+		}
+		for i := 0; i < st.NumFields(); i++ {
+			ft := st.Field(i).Type()
+			if p, isP := ft.Underlying().(*types.Pointer); isP && isCache(p.Elem()) {
+				return true
+			}
+		}
+		return false
+	}
+	perCache := methodsOf(holdsCache)
+	roles[pkgFC+".NewFlowControl"] = func(ci ssa.CallInstruction) bool {
+		return ownedByMethods(ci.Parent(), perCache) && noGlobalStore(ci)
+	}
+
+	limI := c.W.Interface(pkgFCRoot, "UpstreamLimiter")
+	perLimiter := methodsOf(func(t types.Type) bool {
+		_, isNamed := t.(*types.Named)
+		return isNamed && limI != nil && implementsIface(t, limI)
+	})
+	roles[pkgFCRemote+".NewFlowControlCache"] = func(ci ssa.CallInstruction) bool {
+		return ownedByMethods(ci.Parent(), perLimiter) && noGlobalStore(ci)
+	}
+
+	roles[pkgFCRoot+".NewUpstreamLimiter"] = func(ci ssa.CallInstruction) bool {
+		res := eng.ResultValue(ci)
+		if res == nil || !noGlobalStore(ci) {
+			return false
+		}
+		sl := c.Slicer()
+		found := false
+		for _, st := range eng.StoresToField(eng.WithClosures(c06Outermost(ci.Parent())), tClusterInfo, "flowcontrol") {
+			fa, _ := st.Addr.(*ssa.FieldAddr)
+			if fa == nil || !sl.DerivesFrom(st.Val, func(v ssa.Value) bool { return v == res }) {
+				continue
+			}
+			// the ClusterInfo is allocated by this very function
+			if sl.DerivesFrom(fa.X, func(v ssa.Value) bool {
+				al, isAl := v.(*ssa.Alloc)
+				return isAl && al.Parent() == st.Parent() && eng.TypeName(al.Type().Underlying().(*types.Pointer).Elem()) == tClusterInfo
+			}) {
+				found = true
+			}
+		}
+		return found
+	}
+	return roles
 }
 
 // checkSchemaTableKeys: the per-schema limiter table (FlowControlMap) is keyed by the schema
@@ -847,12 +1100,82 @@ func c05DelegateStability(c *eng.Ctx, iface *types.Interface) {
 					fn := s.Parent()
 					// allowed: store control-dependent on delegate == nil only (not a disjunction with other conditions)
 					ok := eng.GuardedByNil(s, func(v ssa.Value) bool { return eng.FieldLoadOf(v, tn, f.Name()) }, true)
+					if !ok {
+						// `if d == nil { d = new() }` written as `d = orNew(d)`: the store is unconditional
+						// but every value it can store is the current delegate itself, or a new one
+						// produced only where the current delegate is known to be nil
+						ok = c05KeepsDelegate(c, s.Val, nil, tn, f.Name(), eng.LiftDepth, map[ssa.Value]bool{})
+					}
 					c.Check("R3", fn, fmt.Sprintf("store %s.%s#%d", shortName(tn), f.Name(), k+1), s.Pos(), ok,
 						"the delegate of a wrapper that in-flight requests hold is replaced (allowed only while it is nil): a request that acquired from the old delegate releases on the new one, so the new limiter admits more than its limit")
 				}
 			}
 		}
 	}
+}
+
+// c05KeepsDelegate: v — the value stored into delegate field tn.field — is, in every
+// alternative, the current delegate (a load of that field, possibly handed to a helper as an
+// argument) or a value chosen only under the condition "the current delegate is nil" (the
+// guards of the phi edge / of the helper's return statement that yields it).
+func c05KeepsDelegate(c *eng.Ctx, v ssa.Value, fr *callBind, tn, field string, depth int, busy map[ssa.Value]bool) bool {
+	var isNilFact *boolFact
+	isCurrent := func(x ssa.Value, fr *callBind) bool {
+		x, _ = isNilFact.resolve(x, fr)
+		if mi, ok := x.(*ssa.MakeInterface); ok {
+			x = mi.X
+		}
+		return eng.FieldLoadOf(x, tn, field)
+	}
+	isNilFact = &boolFact{w: c.W, atom: func(r eng.Rel, fr *callBind) bool {
+		if r.Op != token.EQL {
+			return false
+		}
+		return (eng.IsNilConst(r.Y) && isCurrent(r.X, fr)) || (eng.IsNilConst(r.X) && isCurrent(r.Y, fr))
+	}}
+	if isCurrent(v, fr) {
+		return true
+	}
+	if depth <= 0 || busy[v] {
+		return false
+	}
+	busy[v] = true
+	defer delete(busy, v)
+	seen := map[ssa.Value]bool{}
+	switch n := v.(type) {
+	case *ssa.Parameter:
+		if a, up, bound := fr.arg(n); bound {
+			return c05KeepsDelegate(c, a, up, tn, field, depth, busy)
+		}
+		if r := c.W.ResolveUp(v); r != v {
+			return c05KeepsDelegate(c, r, nil, tn, field, depth, busy)
+		}
+	case *ssa.Phi:
+		for i, e := range n.Edges {
+			if c05KeepsDelegate(c, e, fr, tn, field, depth-1, busy) {
+				continue
+			}
+			if !isNilFact.anyGuard(factEdgeGuards(n.Block(), i), fr, seen, eng.LiftDepth) {
+				return false
+			}
+		}
+		return true
+	case *ssa.ChangeInterface:
+		return c05KeepsDelegate(c, n.X, fr, tn, field, depth, busy)
+	}
+	if alts := eng.ResultAlts(v); len(alts) > 0 {
+		for _, alt := range alts {
+			nf := &callBind{call: alt.Call, parent: fr}
+			if c05KeepsDelegate(c, alt.Val, nf, tn, field, depth-1, busy) {
+				continue
+			}
+			if !isNilFact.anyGuard(eng.GuardsOf(alt.Ret), nf, seen, eng.LiftDepth) {
+				return false
+			}
+		}
+		return true
+	}
+	return false
 }
 
 // ---------------------------------------------------------------------------------------
